@@ -1,6 +1,6 @@
 use derive_more::Display;
 
-#[derive(Debug, Display, PartialEq)]
+#[derive(Debug, Display, PartialEq, Clone, Copy)]
 pub enum ExecError {
     #[display("index out of bounds")]
     IndexOutOfBounds,
